@@ -46,14 +46,14 @@ Proof. intros p r n R H. apply (rel_used _ _ R), (rel_names _ _ R), H. Qed.
 Lemma step_register : forall p r B U s i,
   pinv p r B U -> r_dom (ref_apply r i s) = true -> st_kind s = KRegister ->
   (bi_step s \/ (user_step s /\ incl BN (r_used r))) ->
-  exists B' U', compile_filter (p_cs p ++ [cb_of_step s i]) = B' ++ U'
+  exists B' U', compile_filter (p_cs p ++ [cb_of_step (p_cs p) s i]) = B' ++ U'
                 /\ forall fns, pinv (mk_proc (B' ++ U') fns) (ref_apply r i s) B' U'.
 Proof.
   intros p r B U s i I Hdom Hk Hs.
   destruct (dom_parts _ _ _ Hdom) as [Hd0 Hbok].
   pose proof (step_kept p r s i (pi_rel _ _ _ _ _ _ I) Hdom) as K. cbn zeta in K.
   destruct K as (Kn & Kf & Kd & Ku).
-  assert (Rel' : forall kept fns, kept = compile_filter (p_cs p ++ [cb_of_step s i]) ->
+  assert (Rel' : forall kept fns, kept = compile_filter (p_cs p ++ [cb_of_step (p_cs p) s i]) ->
                  rel (mk_proc kept fns) (ref_apply r i s)).
   { intros kept fns ->. constructor; cbn; auto. }
   destruct I as [R Hu Hcs Hp HBn HU0 Ht Hbi Hnb Hhid].
@@ -136,14 +136,16 @@ Qed.
 
 Lemma step_replace : forall p r B U s i,
   pinv p r B U -> r_dom (ref_apply r i s) = true -> st_kind s = KReplace ->
-  exists B' U', compile_filter (p_cs p ++ [cb_of_step s i]) = B' ++ U'
+  exists B' U', compile_filter (p_cs p ++ [cb_of_step (p_cs p) s i]) = B' ++ U'
                 /\ forall fns, pinv (mk_proc (B' ++ U') fns) (ref_apply r i s) B' U'.
 Proof.
   intros p r B U s i I Hdom Hk.
   destruct (dom_parts _ _ _ Hdom) as [Hd0 Hbok].
+  assert (Hns : forall c, In c (p_cs p) -> nostar c).
+  { rewrite (pi_cs _ _ _ _ _ _ I). apply simple_ok_nostar. exact (pinv_simple_ok _ _ _ _ _ _ I). }
   pose proof (step_kept p r s i (pi_rel _ _ _ _ _ _ I) Hdom) as K. cbn zeta in K.
   destruct K as (Kn & Kf & Kd & Ku).
-  assert (Rel' : forall kept fns, kept = compile_filter (p_cs p ++ [cb_of_step s i]) ->
+  assert (Rel' : forall kept fns, kept = compile_filter (p_cs p ++ [cb_of_step (p_cs p) s i]) ->
                  rel (mk_proc kept fns) (ref_apply r i s)).
   { intros kept fns ->. constructor; cbn; auto. }
   destruct I as [R Hu Hcs Hp HBn HU0 Ht Hbi Hnb Hhid].
@@ -151,6 +153,7 @@ Proof.
   { unfold builtin_ok in Hbok. rewrite Hk in Hbok. destruct (st_builtin s); [|reflexivity].
     cbn in Hbok. rewrite andb_false_r in Hbok. discriminate. }
   revert Hdom Kn Kf Kd Ku Rel'. unfold ref_apply, cb_of_step. rewrite Hk.
+  rewrite (replace_fields_nostar _ s Hns). cbn [fst snd].
   destruct (is_live (r_live r) (st_name s) && unconstrained s) eqn:El; [|discriminate].
   apply andb_true_iff in El. destruct El as [El Eu].
   unfold unconstrained in Eu. rewrite !andb_true_iff in Eu. destruct Eu as ((Eb & Ea) & Em).
@@ -205,14 +208,14 @@ Qed.
 
 Lemma step_remove : forall p r B U s i,
   pinv p r B U -> r_dom (ref_apply r i s) = true -> st_kind s = KRemove ->
-  exists B' U', compile_filter (p_cs p ++ [cb_of_step s i]) = B' ++ U'
+  exists B' U', compile_filter (p_cs p ++ [cb_of_step (p_cs p) s i]) = B' ++ U'
                 /\ forall fns, pinv (mk_proc (B' ++ U') fns) (ref_apply r i s) B' U'.
 Proof.
   intros p r B U s i I Hdom Hk.
   destruct (dom_parts _ _ _ Hdom) as [Hd0 Hbok].
   pose proof (step_kept p r s i (pi_rel _ _ _ _ _ _ I) Hdom) as K. cbn zeta in K.
   destruct K as (Kn & Kf & Kd & Ku).
-  assert (Rel' : forall kept fns, kept = compile_filter (p_cs p ++ [cb_of_step s i]) ->
+  assert (Rel' : forall kept fns, kept = compile_filter (p_cs p ++ [cb_of_step (p_cs p) s i]) ->
                  rel (mk_proc kept fns) (ref_apply r i s)).
   { intros kept fns ->. constructor; cbn; auto. }
   destruct I as [R Hu Hcs Hp HBn HU0 Ht Hbi Hnb Hhid].
